@@ -19,7 +19,7 @@ type c15Case struct {
 	alias   int        // 0 none, 1 X->T, 2 X->Y,Y->T, 3 X->Y,Y->X (alias cycle; the variable is typed by X), 4 X->Y|Z, Y->X|Z, Z->X|Y (cycle through unions)
 	wrap    int        // 0 T, 1 T[], 2 table<string,T> (v["k"].), 3 table<number,T> (v[1].), 4 a class field of type table<string,T> (v.f.k.), 5 table<string,table<string,T>> (v.x.y.)
 	split   bool       // declarations in defs.lua, variable in main.lua
-	layout  int        // 0 class blocks separated by blank lines; 1 one contiguous comment block; 2 one file per class; 3 every class declared in two files (each part with its own field); 4 the file of a class also holds a part of each of its direct parents (field f<parent>_<child>)
+	layout  int        // 0 class blocks separated by blank lines; 1 one contiguous comment block; 2 one file per class; 3 every class declared in two files (each part with its own field); 4 the file of a class also holds a part of each of its direct parents (field f<parent>_<child>); 5 the same, except that the file of the root class holds no such parts
 }
 
 func (c c15Case) fieldOf(cl string) string { return "f" + strings.ToLower(cl) }
@@ -48,10 +48,10 @@ func (c c15Case) expected() map[string]bool {
 		if c.layout == 3 {
 			out[c.fieldOf(n)+"2"] = true
 		}
-		if c.layout == 4 {
+		if c.layout == 4 || c.layout == 5 {
 			// every part of n counts, also the parts that live in the files of the classes naming n as a parent
 			for k, m := range c.classes {
-				if m == n {
+				if m == n || (c.layout == 5 && k == 0) {
 					continue
 				}
 				for _, p := range c.parents[k] {
@@ -76,11 +76,11 @@ func (c c15Case) build() (files map[string]string, mainFile string, access strin
 		if len(c.parents[i]) > 0 {
 			h += " : " + strings.Join(c.parents[i], ", ")
 		}
-		if c.layout == 4 {
+		if c.layout == 4 || c.layout == 5 {
 			var sb strings.Builder
 			ln := 0
 			for _, p := range c.parents[i] {
-				if p != n {
+				if p != n && !(c.layout == 5 && i == 0) {
 					sb.WriteString("---@class " + p + "\n---@field " + c.fieldOf(p) + "_" + strings.ToLower(n) + " number\n\n")
 					fieldLines[c.fieldOf(p)+"_"+strings.ToLower(n)] = [2]interface{}{"class_" + strings.ToLower(n) + ".lua", ln + 1}
 					ln += 3
@@ -212,7 +212,7 @@ func c15Cases(tier string) []c15Case {
 		for alias := 0; alias < 5; alias++ {
 			for wrap := 0; wrap < 6; wrap++ {
 				for _, split := range []bool{false, true} {
-					for layout := 0; layout < 5; layout++ {
+					for layout := 0; layout < 6; layout++ {
 						out = append(out, c15Case{two, ps, alias, wrap, split, layout})
 					}
 				}
@@ -223,7 +223,7 @@ func c15Cases(tier string) []c15Case {
 	// thorough: crossed with the alias shapes and wrappers as well
 	three := []string{"A", "B", "C"}
 	for _, ps := range graphs(three) {
-		for layout := 0; layout < 5; layout++ {
+		for layout := 0; layout < 6; layout++ {
 			for _, split := range []bool{false, true} {
 				out = append(out, c15Case{three, ps, 0, 0, split, layout})
 				if tier == "thorough" {
